@@ -60,6 +60,9 @@ def evaluate_matched_instance(
         ):
             for k, v in metric_dict.items():
                 score_dict[k].append(v)
+        else:
+            # fails the decision threshold: counts as false positive and false negative
+            tp -= 1
 
     # Create and return the PanopticaResult object with computed metrics
     return EvaluateInstancePair(
